@@ -13,7 +13,8 @@ CONFIG = dict(
           "without a population below, for DiscardOffspring, Generational, Merge, KeepBetterAtIndex and MuPlusLambda with "
           "every mu in 0..a+b+1 and 10; (2) RandomReplacement on all size pairs 0..4 x mu 0..10 x 10 (quick) / 40 (thorough) "
           "seeds; (3) seeded random stacks (sizes up to 8, 10% up to 39; 11-value grid incl. +inf, signed zeros, 1e300; depth "
-          "2..4; all operators); (4) a separate 'malformed' stream (fewer than two populations, unevaluated individuals) on "
+          "2..4; all operators); (3b) offspring containing exact clones of parents (same tag and objective; multiset "
+          "multiplicities matter); (4) a separate 'malformed' stream (fewer than two populations, unevaluated individuals) on "
           "which only the model's predicted Err/panic/stack is compared. A case is non-trivial if both populations together "
           "hold at least 2 individuals and the stream is not 'malformed'; distinct = distinct input string."),
     nontrivial=lambda inp: inp.count("(") - inp.count("(pop") >= 6,
